@@ -216,6 +216,10 @@ pub fn child(case_file: &str, out: &str) {
                         s += &ctx.dump_schedule(&format!("S:step{}", nsteps), sch);
                         nsteps += 1;
                     }
+                    solver::verif::Event::StepObjective(levels) => {
+                        // belongs to the step recorded just before
+                        writeln!(s, "P stepobj {} {}", nsteps.max(1) - 1, levels.join(" ")).unwrap();
+                    }
                     solver::verif::Event::Stage(name, sch) => {
                         s += &ctx.dump_schedule(&format!("S:{}", name), sch);
                     }
